@@ -103,8 +103,10 @@ C03Floor(nd) == \A v \in PrincipalSet(nd) : v.out >= ProdOf(Cfg(nd), v.prod).flo
 (* step form: a step that raises the principal outstanding across a product must leave it within the ceiling *)
 C03Ceiling(nd) == \A p \in Range(Cfg(nd).prods) :
    IsRoot(nd) \/ OpenMinted(Post(nd), p.id) > OpenMinted(Pre(nd), p.id) => OpenMinted(Post(nd), p.id) <= p.ceiling
+(* "outside emergency shutdown": in the cool-off window of an executed shutdown a withdrawal is valued at the shutdown's price SNAPSHOT, *)
+(* the live feed is not the required price any more (C14 judges the shutdown side)                                                        *)
 C03InactivePrice(nd) ==
-   nd.a \in RiskOps /\ HasProd(Cfg(nd), nd.args.p) /\ ~PricesActive(Cfg(nd), Pre(nd), ProdOf(Cfg(nd), nd.args.p)) /\ ~ProdOf(Cfg(nd), nd.args.p).stable
+   nd.a \in RiskOps /\ ~Pre(nd).ctl.esm /\ HasProd(Cfg(nd), nd.args.p) /\ ~PricesActive(Cfg(nd), Pre(nd), ProdOf(Cfg(nd), nd.args.p)) /\ ~ProdOf(Cfg(nd), nd.args.p).stable
       => ~Ok(nd)
 
 (* ------------------------------------ C09 ------------------------------------ *)
